@@ -257,7 +257,39 @@ func (st *taintState) sinksOf(fn *ssa.Function) []TaintSink {
 		case *ssa.If:
 			// loop whose trip count is a wire value and whose body has no other exit
 			bo, ok := x.Cond.(*ssa.BinOp)
-			if !ok || (bo.Op != token.LSS && bo.Op != token.LEQ && bo.Op != token.NEQ) {
+			if !ok {
+				return
+			}
+			// a loop counting a wire value down to a constant: `for n := <wire>; n > 0; n--`
+			var down *ssa.Phi
+			if ph, isPhi := bo.X.(*ssa.Phi); isPhi && (bo.Op == token.GTR || bo.Op == token.GEQ || bo.Op == token.NEQ) {
+				if _, isC := bo.Y.(*ssa.Const); isC {
+					down = ph
+				}
+			}
+			if ph, isPhi := bo.Y.(*ssa.Phi); isPhi && (bo.Op == token.LSS || bo.Op == token.LEQ || bo.Op == token.NEQ) {
+				if _, isC := bo.X.(*ssa.Const); isC {
+					down = ph
+				}
+			}
+			if down != nil && down.Block() == x.Block() {
+				if _, t := st.tainted[down]; t {
+					blk := x.Block()
+					if (reaches(blk.Succs[0], blk, blk) || reaches(blk.Succs[1], blk, blk)) && !st.loopHasStateExit(blk) {
+						for _, e := range down.Edges {
+							if step, isStep := e.(*ssa.BinOp); isStep && (step.X == ssa.Value(down) || step.Y == ssa.Value(down)) {
+								continue
+							}
+							if src, t := st.tainted[e]; t {
+								lo, hi, why := st.boundsAt(e, x)
+								out = append(out, TaintSink{Fn: fn, Ins: ins, Kind: "loop-count", Val: e, Source: src, Lo: true, Hi: hi, Why: append(why, fmt.Sprintf("counted down from a wire value; lo irrelevant for a trip count (computed %v)", lo))})
+							}
+						}
+					}
+				}
+				return
+			}
+			if bo.Op != token.LSS && bo.Op != token.LEQ && bo.Op != token.NEQ {
 				return
 			}
 			if _, isPhi := bo.X.(*ssa.Phi); !isPhi {
@@ -405,6 +437,9 @@ func (st *taintState) loopHasStateExit(h *ssa.BasicBlock) bool {
 			continue
 		}
 		for _, v := range []ssa.Value{ci.X, ci.Y} {
+			if _, isConst := v.(*ssa.Const); isConst {
+				continue // a comparison with a constant says nothing about the decoder state by itself
+			}
 			if v != nil && st.cfg.IsBoundExpr(v) {
 				return true
 			}
